@@ -28,7 +28,7 @@ ASSUMPTIONS = ['bit-equality is demanded only between executions of the same cod
                'paired-world numerics are compared by model name within 1e-9 (relative, floor 1e-9) and only for well-conditioned regressions '
                '(normal-matrix determinant > 1e-3 of the product of its diagonal); rankings may differ inside exact ties']
 PROBES = ['same_source_object_twice', 'both_users_same_source', 'bad_call_between', 'memmap_fitter', 'apdep', 'p1_filters_permuted',
-          'p2_models_permuted', 'p3_flux_scaled', 'ill_conditioned_skipped', 'earlier_results_rechecked', 'source_edited_in_place', 'refit_after_in_place_edit', 'mixed_named_and_wavelength_filters', 'bystander_fitter_alive', 'same_filter_twice_other_aperture', 'p4_models_relabelled', 'one_sed_on_another_grid']
+          'p2_models_permuted', 'p3_flux_scaled', 'ill_conditioned_skipped', 'earlier_results_rechecked', 'source_edited_in_place', 'refit_after_in_place_edit', 'mixed_named_and_wavelength_filters', 'bystander_fitter_alive', 'same_filter_twice_other_aperture', 'p4_models_relabelled', 'one_sed_on_another_grid', 'five_band_patterns_then_the_first_again']
 
 
 def budgets(tier):
@@ -57,7 +57,22 @@ def generate(rng, tier, idx):
             steps.append({'user': rng.choice('AB'), 'op': 'fit', 'src': rng.randrange(len(pool))})
     if not any(s['op'] == 'fit' for s in steps):
         steps.append({'user': 'A', 'op': 'fit', 'src': 0})
-    return {'world': w, 'pool': pool, 'steps': steps, 'memmap': rng.random() < 0.5, 'remove_resolved': w['apdep'] and rng.random() < 0.3,
+    cycle = w['apdep'] and nf >= 3 and rng.random() < 0.12
+    if cycle:
+        # six fits of sources that each use ANOTHER sub-set of the bands, the first of them once more at the end
+        # (anything the fitter remembers per pattern of used bands is exercised), with resolved models removed
+        pats = [p_ for p_ in range(1, 2 ** nf) if bin(p_).count('1') >= 2]
+        rng.shuffle(pats)
+        pool = []
+        for i_, p_ in enumerate(pats[:5]):
+            s_ = gen_source(rng, nf, 'pat%d' % i_, flags=(1,), min_fit=1)
+            s_['valid'] = [1 if (p_ >> j_) & 1 else 0 for j_ in range(nf)]
+            s_.pop('arrays', None)
+            pool.append(s_)
+        steps = [{'user': rng.choice('AB'), 'op': 'fit', 'src': i_} for i_ in range(len(pool))] + [{'user': 'A', 'op': 'fit', 'src': rng.randrange(max(1, len(pool) - 4))}]
+        if w.get('shell_model') is None:
+            w['shell_model'] = rng.randrange(w['n_models'])
+    return {'world': w, 'pool': pool, 'steps': steps, 'memmap': rng.random() < 0.5, 'remove_resolved': w['apdep'] and (cycle or rng.random() < 0.3),
             'av_range': [0.0, round(rng.uniform(2, 30), 2)], 'drange': [1.0, rng.choice([1.0, 1.5, 2.5])],
             'theta_seed': rng.randrange(1 << 30), 'listing_seed': rng.randrange(1 << 30),
             'p1_seed': rng.randrange(1 << 30) if rng.random() < 0.6 else None,
@@ -165,6 +180,8 @@ def _execute(sc, sim, out):
         out.probe('mixed_named_and_wavelength_filters')
     if spec.get('mixed') is not None and spec['format'] == 1:
         out.probe('one_sed_on_another_grid')
+    if len(sc['pool']) >= 5 and sc['pool'][0]['name'] == 'pat0':
+        out.probe('five_band_patterns_then_the_first_again')
     centers = [f['center'] for f in W.fspec]
     for j_, nm_ in enumerate(names):
         if not isinstance(nm_, str):
